@@ -13,6 +13,7 @@ import (
 
 	"github.com/piotrnar/gocoin/lib/btc"
 	"github.com/piotrnar/gocoin/lib/others/bip39"
+	"github.com/piotrnar/gocoin/lib/script"
 	"verif/vlib"
 	"verif/vtrans"
 )
@@ -643,6 +644,7 @@ func genWallets(g *vlib.Rng, n int) []Case {
 
 func main() {
 	r = vlib.NewRun("C14")
+	script.DBG_ERR = false // the interpreter's diagnostics of a failing input (sessions verify what the wallet signed)
 	r.Assume = []string{
 		"SHA-256, SHA-512, RIPEMD-160, HMAC, PBKDF2 are modelled, not verified (Lean implementations compared with Go's on every run); scrypt is opaque (computed by the repository's package and handed to the model)",
 		"the elliptic curve in model and theorems is the reference curve of Base/Secp.lean; gocoin's limb arithmetic is tied to it by this run only (and is the subject of C08)",
@@ -753,6 +755,9 @@ func main() {
 		cases = append(cases, Case{Kind: "seed", A: []string{hx([]byte(m)), hx(pw)}})
 	}
 	cases = append(cases, genWallets(g.Fork(), r.N(70, 900))...)
+	// sessions: one invocation doing several things with its key store (-sign … together with -send / -raw / -l)
+	cases = append(cases, corpusSessions()...)
+	cases = append(cases, genSessions(g.Fork(), r.N(40, 700))...)
 	for _, c := range cases {
 		if c.Kind == "wallet" || c.Kind == "child" || c.Kind == "entropy" {
 			r.Sample(c)
